@@ -15,6 +15,17 @@ Theorem C08_sweep_eq_rle_depth : forall U es,
 Proof. exact sweep_eq_rle_depth. Qed.
 Print Assumptions C08_sweep_eq_rle_depth.
 
+(* what the writer accepts is what the theorems below need (positions are u32: len, ends <= U <= 2^32-1) *)
+Theorem C08_accepted_valid : forall U len es, U <= U32_MAX -> len <= U32_MAX -> Forall (fun e => e_end e <= U) es ->
+  bb_check_chrom len es = Ok tt -> valid_zoom_chrom U es.
+Proof.
+  intros U len es HU Hlen Hend Hc. destruct (check_chrom_valid len es Hc) as (A & B).
+  split; [exact HU | split; [|split; [exact A|]]]; rewrite Forall_forall in *; intros e He.
+  - split; [apply (B e He) | apply (Hend e He)].
+  - destruct (B e He). lia.
+Qed.
+Print Assumptions C08_accepted_valid.
+
 (* records are in order, non-empty and disjoint: each starts at or after the end of the one before *)
 Theorem C08_ordered_disjoint : forall U ips size chrom es secs,
   1 <= size -> valid_zoom_chrom U es -> bb_zoom_records exact ips size chrom es = Ok secs ->
@@ -72,6 +83,16 @@ Theorem C08_levels_increasing : forall fp two_pass o sizes input sum levels cs,
   bb_file fp two_pass o sizes input = Ok (sum, levels, cs) -> sincr (map fst levels).
 Proof. exact levels_increasing. Qed.
 Print Assumptions C08_levels_increasing.
+
+(* File level: every level the file-level model writes has a resolution >= 1 and consists, chromosome
+   by chromosome in stream order, of exactly the sections bb_zoom_records yields for that chromosome at
+   that resolution -- so the theorems above apply to every level of every accepted file, single pass
+   (after the level selection of write_zooms) and two passes. *)
+Theorem C08_file_levels : forall fp two_pass o sizes input sum levels cs,
+  bb_file fp two_pass o sizes input = Ok (sum, levels, cs) ->
+  Forall (fun l => 1 <= fst l) levels /\ Forall (level_from fp o cs) levels.
+Proof. intros. split; [eapply levels_positive | eapply levels_from_records]; eassumption. Qed.
+Print Assumptions C08_file_levels.
 
 (* Zoom query, the part that is about the records: the reader's inclusive test keeps every record that
    meets the range [s, e).  FULL STATEMENT (not proved here): get_zoom_interval on the written file
